@@ -123,6 +123,8 @@ pub struct Srv {
 }
 
 async fn start_system(config: Arc<SystemConfig>) -> Result<(SharedSystem, std::net::SocketAddr), IggyError> {
+    // a real restart is a new process: process-global counters start over
+    server::streaming::systems::streams::verif_reset_stream_id_counter();
     let mut system = System::new(config, DataMaintenanceConfig::default(), PersonalAccessTokenConfig::default());
     system.init().await?;
     let shared = SharedSystem::new(system);
@@ -505,6 +507,44 @@ impl Srv {
                 }
                 Err(e) => err_json(&e),
             },
+            "catalog" => {
+                // full catalogue through the public API: streams -> topics -> (partitions, groups), users
+                let mut streams_out = vec![];
+                match c.get_streams().await {
+                    Err(e) => return err_json(&e),
+                    Ok(ss) => {
+                        let mut ids: Vec<u32> = ss.iter().map(|x| x.id).collect();
+                        ids.sort();
+                        for sid in ids {
+                            let sident = Identifier::numeric(sid).unwrap();
+                            let Ok(Some(sd)) = c.get_stream(&sident).await else { return json!({"r": "err", "name": format!("get_stream {sid} failed")}) };
+                            let mut tids: Vec<u32> = sd.topics.iter().map(|t| t.id).collect();
+                            tids.sort();
+                            let mut topics_out = vec![];
+                            for tid in tids {
+                                let tident = Identifier::numeric(tid).unwrap();
+                                let Ok(Some(td)) = c.get_topic(&sident, &tident).await else { return json!({"r": "err", "name": format!("get_topic {sid}/{tid} failed")}) };
+                                let groups = match c.get_consumer_groups(&sident, &tident).await {
+                                    Ok(g) => { let mut v: Vec<(u32, String)> = g.iter().map(|x| (x.id, x.name.clone())).collect(); v.sort(); v }
+                                    Err(e) => return err_json(&e),
+                                };
+                                let mut pids: Vec<u32> = td.partitions.iter().map(|p| p.id).collect();
+                                pids.sort();
+                                let by_name = c.get_topic(&sident, &Identifier::named(&td.name).unwrap()).await.ok().flatten().map(|x| x.id);
+                                topics_out.push(json!({"id": td.id, "name": td.name, "parts": pids, "parts_count": td.partitions_count, "groups": groups,
+                                    "msgs": td.messages_count, "by_name": by_name, "expiry": format!("{}", td.message_expiry), "max_size": format!("{}", td.max_topic_size)}));
+                            }
+                            let by_name = c.get_stream(&Identifier::named(&sd.name).unwrap()).await.ok().flatten().map(|x| x.id);
+                            streams_out.push(json!({"id": sd.id, "name": sd.name, "topics": topics_out, "topics_count": sd.topics_count, "by_name": by_name}));
+                        }
+                    }
+                }
+                let users = match c.get_users().await {
+                    Ok(l) => { let mut v: Vec<Value> = l.iter().map(|d| json!({"id": d.id, "name": d.username, "active": d.status == UserStatus::Active})).collect(); v.sort_by_key(|x| x["id"].as_u64()); v }
+                    Err(e) => return err_json(&e),
+                };
+                json!({"r": "ok", "streams": streams_out, "users": users})
+            }
             "get_stats" => match c.get_stats().await {
                 Ok(st) => json!({"r": "ok", "streams": st.streams_count, "topics": st.topics_count, "partitions": st.partitions_count, "segments": st.segments_count,
                     "messages": st.messages_count, "size": st.messages_size_bytes.as_bytes_u64(), "groups": st.consumer_groups_count, "clients": st.clients_count}),
